@@ -11,7 +11,7 @@ Variables t1 t2 : Z.
 (* the status a fresh selector gives the chunk ck when the index is ci (and knows the chunk) *)
 Definition fresh_st (ci : cindex) (ck : Z * list Z) : option chk_status :=
   match find_chunk ci (fst ck) with
-  | Some k => Some (fst (update_poss v ci t1 t2 (fst ck) (k_min k) (k_max k) (len (snd ck))))
+  | Some k => Some (fst (update_poss v ci t1 t2 (fst ck) (k_rmin k) (k_rmax k) (len (snd ck))))
   | None => None
   end.
 
@@ -67,7 +67,7 @@ Lemma statuses_length ci : forall infos cks q, aligned ci infos cks ->
 Proof.
   induction infos as [|k itl IH]; intros cks q H; inversion H as [|k0 ck itl0 ctl Hk Htl]; subst; [reflexivity|].
   destruct ck as [cid data]. cbn [sel_statuses].
-  destruct (update_poss v ci t1 t2 (k_id k) (k_min k) (k_max k) (Z.of_nat (length data))) as [s rb].
+  destruct (update_poss v ci t1 t2 (k_id k) (k_rmin k) (k_rmax k) (Z.of_nat (length data))) as [s rb].
   specialize (IH ctl (if rb then enqueue q cid else q) Htl).
   destruct (sel_statuses v ci t1 t2 itl ctl (if rb then enqueue q cid else q)) as [sel q'']. cbn [fst length] in *. rewrite IH. reflexivity.
 Qed.
@@ -77,7 +77,7 @@ Lemma statuses_find ci : forall infos cks q, aligned ci infos cks -> NoDup (ids_
 Proof.
   induction infos as [|k itl IH]; intros cks q H Hnd c d Hin; inversion H as [|k0 ck itl0 ctl Hk Htl]; subst; [destruct Hin|].
   destruct ck as [cid data]. cbn [sel_statuses]. cbn [fst] in Hk. destruct (find_chunk_some _ _ _ Hk) as [Hid _].
-  destruct (update_poss v ci t1 t2 (k_id k) (k_min k) (k_max k) (Z.of_nat (length data))) as [s rb] eqn:Eu.
+  destruct (update_poss v ci t1 t2 (k_id k) (k_rmin k) (k_rmax k) (Z.of_nat (length data))) as [s rb] eqn:Eu.
   cbn [ids_of map fst] in Hnd. apply NoDup_cons_iff in Hnd as [Hni Hnd'].
   specialize (IH ctl (if rb then enqueue q cid else q) Htl Hnd' c d).
   destruct (sel_statuses v ci t1 t2 itl ctl (if rb then enqueue q cid else q)) as [sel q'']. cbn [fst sel_find] in *.
@@ -141,7 +141,7 @@ Lemma statuses_keys ci : forall infos cks q c s, aligned ci infos cks ->
 Proof.
   induction infos as [|k itl IH]; intros cks q c s H Hf; inversion H as [|k0 ck itl0 ctl Hk Htl]; subst; [discriminate|].
   destruct ck as [cid data]. cbn [sel_statuses] in Hf. cbn [fst] in Hk. destruct (find_chunk_some _ _ _ Hk) as [Hid _].
-  destruct (update_poss v ci t1 t2 (k_id k) (k_min k) (k_max k) (Z.of_nat (length data))) as [s0 rb].
+  destruct (update_poss v ci t1 t2 (k_id k) (k_rmin k) (k_rmax k) (Z.of_nat (length data))) as [s0 rb].
   specialize (IH ctl (if rb then enqueue q cid else q) c s Htl).
   destruct (sel_statuses v ci t1 t2 itl ctl (if rb then enqueue q cid else q)) as [sel q'']. cbn [fst sel_find] in *.
   rewrite Hid in Hf. destruct (Z.eqb_spec cid c) as [->|_]; [left; reflexivity|]. right. apply IH. exact Hf.
@@ -199,7 +199,7 @@ Proof.
   - cbn [fst snd]. split; [reflexivity|]. split; [reflexivity|]. split; [split; assumption|].
     split; [rewrite Es; apply Heq; exact E|]. intros c' d' _ H. exact H.
   - cbn [andb]. destruct (synced_known st c d Hsy Hin) as [k Hk]. rewrite Hk.
-    destruct (update_poss v (p_ci st) t1 t2 c (k_min k) (k_max k) (len d)) as [s' rb] eqn:Eu. cbn [fst snd p_chunks p_ci].
+    destruct (update_poss v (p_ci st) t1 t2 c (k_rmin k) (k_rmax k) (len d)) as [s' rb] eqn:Eu. cbn [fst snd p_chunks p_ci].
     assert (Hfr : fresh_st (p_ci st) (c, d) = Some s') by (unfold fresh_st; cbn [fst snd]; rewrite Hk, Eu; reflexivity).
     split; [reflexivity|]. split; [reflexivity|].
     assert (Hsame : sel_find (sel_set sel c s') c = Some s') by (apply (sel_find_set_same sel c s s' Es)).
@@ -349,7 +349,7 @@ Proof.
     assert (Hine : ci <> []) by (intros ->; destruct (ids_of cks0); discriminate).
     destruct (exists_last Hine) as (cis & l & ->). rewrite map_app in Hsy. cbn [map] in Hsy.
     apply app_inj_tail in Hsy as [Hsy0 Hl].
-    rewrite (ci_on_write_last cis l (sg_skip sg) f lr cid (iw_min iw') (iw_max iw') Hl).
+    rewrite (ci_on_write_last (fix_partial v) cis l (sg_skip sg) f lr cid (iw_min iw') (iw_max iw') Hl).
     rewrite (append_data_last cks0 cid d tss Hnotin).
     set (k' := fst (on_write_chunk (sg_skip sg) false (hull_update l (iw_min iw') (iw_max iw')) f lr (iw_min iw') (iw_max iw'))).
     assert (Hk' : k_id k' = cid) by (unfold k'; rewrite on_write_chunk_id; exact Hl).
@@ -365,9 +365,9 @@ Proof.
     assert (Hnotin : ~ In cid (ids_of cks)) by (intros Hi; specialize (Hnew _ Hi); lia).
     assert (Hnk : forall k, In k ci -> k_id k <> cid).
     { intros k Hk E. apply Hnotin. rewrite <- Hsy, <- E. apply in_map. exact Hk. }
-    rewrite (ci_on_write_new ci (sg_skip sg) f lr cid (iw_min iw') (iw_max iw') Hnk).
+    rewrite (ci_on_write_new (fix_partial v) ci (sg_skip sg) f lr cid (iw_min iw') (iw_max iw') Hnk).
     rewrite (append_data_new cks cid tss Hnotin).
-    set (k' := fst (on_write_chunk (sg_skip sg) true (mkinfo cid (iw_min iw') (iw_max iw') None 0 false) f lr (iw_min iw') (iw_max iw'))).
+    set (k' := fst (on_write_chunk (sg_skip sg) true (mkinfo cid (iw_min iw') (iw_max iw') None 0 false (fix_partial v && (0 <? f))) f lr (iw_min iw') (iw_max iw'))).
     assert (Hk' : k_id k' = cid) by (unfold k'; rewrite on_write_chunk_id; reflexivity).
     cbn [p_ci p_chunks]. split.
     + rewrite map_app, ids_app. cbn [map ids_of fst]. rewrite Hsy, Hk'. reflexivity.
@@ -555,7 +555,7 @@ Proof.
   - cbn [fst snd]. split; [reflexivity|]. split; [reflexivity|]. split; [split; assumption|].
     split; [exists s; split; assumption|]. intros c' d' _ H. exact H.
   - cbn [andb]. destruct (synced_known st c d Hsy Hin) as [k Hk]. rewrite Hk.
-    destruct (update_poss v (p_ci st) t1 t2 c (k_min k) (k_max k) (len d)) as [s' rb] eqn:Eu. cbn [fst snd p_chunks p_ci].
+    destruct (update_poss v (p_ci st) t1 t2 c (k_rmin k) (k_rmax k) (len d)) as [s' rb] eqn:Eu. cbn [fst snd p_chunks p_ci].
     assert (Hfr : fresh_st v t1 t2 (p_ci st) (c, d) = Some s') by (unfold fresh_st; cbn [fst snd]; rewrite Hk, Eu; reflexivity).
     destruct (fresh_complete v t1 t2 st c d s' Hv Hg Hin Hfr) as [Hc' Hw'].
     assert (Hsame : sel_find (sel_set sel c s') c = Some s') by (apply (sel_find_set_same sel c s s' Es)).
@@ -701,11 +701,11 @@ Proof.
   - cbn. rewrite app_nil_r. split; [exact HJ|]. split; [exact Hsy|]. split; [reflexivity|]. split; [reflexivity|]. apply dgrown_refl. reflexivity.
   - inversion Hok as [|x l Ho Hh]; subst. inversion Hnd as [|x l Hno Hnd']; subst. cbn [fold_left hist_data flat_map] in *.
     assert (Hso1 : sorted_z (alld_of (p_chunks st) ++ op_data o)) by (rewrite app_assoc in Hso; apply (sorted_z_app_l _ _ Hso)).
-    assert (Hb : forall segs, o = HBatch segs -> false = false /\ segs_disc (ids_of (p_chunks st)) true segs).
-    { intros segs ->. cbn in Hdisc. destruct Hdisc as [H1 _]. split; [reflexivity|exact H1]. }
-    destruct (step_inv o st false HJ (fun _ => Hsy) Ho Hb Hso1) as (HJ1 & Hsy1 & Hall1 & Hids1).
-    assert (Hnd1 : next_dropped false o = false) by (destruct o; try reflexivity; destruct Hno).
-    destruct (IH (step fixed_variant st o) HJ1 (Hsy1 Hnd1) Hh Hnd') as (G1 & G2 & G3 & G4 & G5).
+    assert (Hb : forall segs, o = HBatch segs -> segs_disc (ids_of (p_chunks st)) true segs).
+    { intros segs ->. cbn in Hdisc. destruct Hdisc as [H1 _]. exact H1. }
+    destruct (step_inv o st HJ (synced_ssynced _ Hsy) Ho Hb Hso1) as (HJ1 & _ & Hsa & Hall1 & Hids1).
+    assert (Hsy1 : synced (step fixed_variant st o)) by (destruct o; cbn [sync_after] in Hsa; try exact Hsa; try (apply Hsa; exact Hsy); destruct Hno).
+    destruct (IH (step fixed_variant st o) HJ1 Hsy1 Hh Hnd') as (G1 & G2 & G3 & G4 & G5).
     + rewrite Hids1. destruct o; cbn in Hdisc; try exact Hdisc. destruct Hdisc as [_ H]. exact H.
     + rewrite Hall1, <- app_assoc. exact Hso.
     + split; [exact G1|]. split; [exact G2|]. split; [rewrite G3, Hall1, <- app_assoc; reflexivity|]. split.
@@ -760,40 +760,45 @@ Proof.
       * rewrite G3, H1, <- app_assoc. exact Hsmall.
 Qed.
 
+(* does a history end with an index that does not know every chunk: an index loss that nothing has synchronised since *)
+Definition unsynced_after (dropped : bool) (o : op) : bool :=
+  match o with HDrop => true | HSync | HRead _ _ | HDescribe => false | _ => dropped end.
+
 Lemma run_full : forall h st dropped,
-  J st -> (dropped = false -> synced st) -> Forall op_ok h ->
-  hist_disc (ids_of (p_chunks st)) h -> nwad dropped h -> sorted_z (alld_of (p_chunks st) ++ hist_data h) ->
+  J st -> ssynced st -> (dropped = false -> synced st) -> Forall op_ok h ->
+  hist_disc (ids_of (p_chunks st)) h -> sorted_z (alld_of (p_chunks st) ++ hist_data h) ->
   let st' := fold_left (step fixed_variant) h st in
   J st' /\ alld_of (p_chunks st') = alld_of (p_chunks st) ++ hist_data h /\
-  ids_of (p_chunks st') = ids_hist (ids_of (p_chunks st)) h /\ (fold_left next_dropped h dropped = false -> synced st').
+  ids_of (p_chunks st') = ids_hist (ids_of (p_chunks st)) h /\ (fold_left unsynced_after h dropped = false -> synced st').
 Proof.
-  induction h as [|o h IH]; intros st dropped HJ Hsy Hok Hdisc Hnw Hso.
+  induction h as [|o h IH]; intros st dropped HJ Hss Hsy Hok Hdisc Hso.
   - cbn. rewrite app_nil_r. auto.
   - inversion Hok as [|x l Ho Hh]; subst. cbn [fold_left hist_data flat_map] in *.
     assert (Hso1 : sorted_z (alld_of (p_chunks st) ++ op_data o)) by (rewrite app_assoc in Hso; apply (sorted_z_app_l _ _ Hso)).
-    assert (Hb : forall segs, o = HBatch segs -> dropped = false /\ segs_disc (ids_of (p_chunks st)) true segs).
-    { intros segs ->. cbn in Hdisc, Hnw. destruct Hdisc as [H1 _]. destruct Hnw as [H2 _]. split; assumption. }
-    destruct (step_inv o st dropped HJ Hsy Ho Hb Hso1) as (HJ1 & Hsy1 & Hall1 & Hids1).
-    destruct (IH (step fixed_variant st o) (next_dropped dropped o) HJ1 Hsy1 Hh) as (G1 & G2 & G3 & G4).
+    assert (Hb : forall segs, o = HBatch segs -> segs_disc (ids_of (p_chunks st)) true segs).
+    { intros segs ->. cbn in Hdisc. destruct Hdisc as [H1 _]. exact H1. }
+    destruct (step_inv o st HJ Hss Ho Hb Hso1) as (HJ1 & Hss1 & Hsa & Hall1 & Hids1).
+    destruct (IH (step fixed_variant st o) (unsynced_after dropped o) HJ1 Hss1) as (G1 & G2 & G3 & G4).
+    + destruct o; cbn [sync_after unsynced_after] in *; try (intros E; apply Hsa; apply Hsy; exact E); try (intros _; exact Hsa). discriminate.
+    + exact Hh.
     + rewrite Hids1. destruct o; cbn in Hdisc; try exact Hdisc. destruct Hdisc as [_ H]. exact H.
-    + destruct o; cbn in Hnw |- *; try exact Hnw. destruct Hnw as [_ H]. exact H.
     + rewrite Hall1, <- app_assoc. exact Hso.
     + split; [exact G1|]. split; [rewrite G2, Hall1, <- app_assoc; reflexivity|]. split; [|exact G4].
       rewrite G3, Hids1. destruct o; reflexivity.
 Qed.
 
 (* the history before the selector is created does not end in an index loss that nothing has synchronised yet *)
-Definition ends_synced (h : list op) : Prop := fold_left next_dropped h false = false.
+Definition ends_synced (h : list op) : Prop := fold_left unsynced_after h false = false.
 
 Theorem continued_selector_complete t1 t2 hist0 hs :
   Forall op_ok (hist0 ++ concat hs) -> hist_sorted (hist0 ++ concat hs) -> hist_disciplined (hist0 ++ concat hs) ->
-  hist_small (hist0 ++ concat hs) -> no_write_after_drop hist0 -> ends_synced hist0 -> Forall no_drop (concat hs) ->
+  hist_small (hist0 ++ concat hs) -> ends_synced hist0 -> Forall no_drop (concat hs) ->
   session_complete fixed_variant t1 t2 (run fixed_variant hist0) [] hs.
 Proof.
-  intros Hok Hso Hdisc Hsmall Hnw Hend Hnd. apply Forall_app in Hok as [Hok0 Hok1].
+  intros Hok Hso Hdisc Hsmall Hend Hnd. apply Forall_app in Hok as [Hok0 Hok1].
   unfold hist_sorted, hist_small, hist_data in Hso, Hsmall. rewrite flat_map_app in Hso, Hsmall. fold (hist_data hist0) in *. fold (hist_data (concat hs)) in *.
   destruct (hist_disc_app _ _ _ Hdisc) as [Hd0 Hd1].
-  destruct (run_full hist0 p_init false J_init (fun _ => eq_refl) Hok0 Hd0 Hnw (sorted_z_app_l _ _ Hso)) as (HJ & Hall & Hids & Hsy).
+  destruct (run_full hist0 p_init false J_init (synced_ssynced p_init eq_refl) (fun _ => eq_refl) Hok0 Hd0 (sorted_z_app_l _ _ Hso)) as (HJ & Hall & Hids & Hsy).
   fold (run fixed_variant hist0) in *. cbn [p_init p_chunks alld_of ids_of map flat_map app] in Hall, Hids.
   apply session_complete_inv; try assumption.
   - apply Hsy. exact Hend.
@@ -808,13 +813,14 @@ Qed.
    was computed from the index as it was before the rebuild *)
 Definition sess_hist0 : list op :=
   [HBatch [mkseg 1 false (repeat 0 3 ++ repeat 5 246 ++ [10])]; HBatch [mkseg 1 false (repeat 10 250)];
-   HBatch [mkseg 1 false (repeat 10 5); mkseg 2 false (repeat 10 245 ++ repeat 20 6)]; HDrop; HSync].
+   HBatch [mkseg 1 false (repeat 10 5); mkseg 2 false (repeat 10 245 ++ repeat 20 6)]; HDrop;
+   HBatch [mkseg 2 false (repeat 20 3)]; HSync].
 Definition sess_hs : list (list op) := [[HDescribe; HServe; HRestart; HRead (Some 7) None]; [HBatch [mkseg 2 false (repeat 20 250)]; HServe]].
 Lemma sess_nonvac :
   Forall op_ok (sess_hist0 ++ concat sess_hs) /\ hist_sorted (sess_hist0 ++ concat sess_hs) /\ hist_disciplined (sess_hist0 ++ concat sess_hs) /\
-  hist_small (sess_hist0 ++ concat sess_hs) /\ no_write_after_drop sess_hist0 /\ ends_synced sess_hist0 /\ Forall no_drop (concat sess_hs).
+  hist_small (sess_hist0 ++ concat sess_hs) /\ ends_synced sess_hist0 /\ Forall no_drop (concat sess_hs).
 Proof.
   split; [apply hist_okb_ok; vm_compute; reflexivity|]. split; [apply sorted_zb_ok; vm_compute; reflexivity|].
   split; [apply hist_discb_ok; vm_compute; reflexivity|]. split; [apply hist_smallb_ok; vm_compute; reflexivity|].
-  split; [apply nwadb_ok; vm_compute; reflexivity|]. split; [vm_compute; reflexivity|]. repeat constructor.
+  split; [vm_compute; reflexivity|]. repeat constructor.
 Qed.
